@@ -73,9 +73,15 @@ def gen_program(rng: Any) -> dict[str, Any]:
             tasks.append({"kind": "waiter", "start": gen_steps(rng, rng.randint(0, 4)), "signals": sigs,
                           "filter": rng.choice([None, {"mod": 2, "rem": 0}, {"mod": 3, "rem": 1}]),
                           "via": "method" if len(sigs) == 1 and rng.random() < 0.6 else "function"})
+    for _ in range(rng.choice([0, 0, 1])):
+        # a subscription attempt that must fail: a bound signal followed by an unbound (class-level) one
+        tasks.append({"kind": "bad_subscriber", "start": gen_steps(rng, rng.randint(0, 3)), "signals": rng.sample(chans, rng.randint(1, min(2, len(chans)))),
+                      "via": rng.choice(["stream", "wait"])})
     rng.shuffle(tasks)
     return {"backend": rng.choice(["asyncio", "trio"]), "sched_seed": rng.randrange(1 << 30), "shuffle": rng.random() < 0.5,
-            "n_instances": n_inst, "n_signals": n_sig, "tasks": tasks}
+            "n_instances": n_inst, "n_signals": n_sig, "tasks": tasks,
+            # owner instances that all compare (and hash) equal, like value objects / frozen dataclasses
+            "equal_owners": rng.random() < 0.3}
 
 
 # --------------------------------------------------------------------------- interpretation
@@ -199,6 +205,45 @@ class Run:
         finally:
             self.trace.log("sub-exited", sid)
 
+    async def bad_subscriber(self, bid: int, spec: dict[str, Any]) -> None:
+        from asphalt.core import UnboundSignal, stream_events, wait_event
+
+        await self.steps(spec["start"], f"bad{bid}")
+        sigs = self.signals(spec["signals"]) + [getattr(self.Src, "s0")]  # the last one is the class-level declaration
+        try:
+            if spec["via"] == "stream":
+                async with stream_events(sigs):
+                    pass
+            else:
+                with anyio.move_on_after(1):
+                    await wait_event(sigs)
+            self.trace.log("bad-subscribe", bid, outcome="accepted")
+        except UnboundSignal:
+            self.trace.log("bad-subscribe", bid, outcome="UnboundSignal")
+        except Exception as e:
+            self.trace.log("bad-subscribe", bid, outcome=describe_exc(e))
+
+    async def relay_phase(self) -> None:
+        """an event object that has already been dispatched once is dispatched again on another channel (a relay):
+        the second channel's subscriber must see it stamped with the second channel's instance and attribute"""
+        # two fresh owner instances nobody else listens to (so the histories above are not disturbed)
+        a_inst, b_inst = self.Src(), self.Src()
+        a_name, b_name = "s0", f"s{self.prog['n_signals'] - 1}"
+        sig_a, sig_b = getattr(a_inst, a_name), getattr(b_inst, b_name)
+        if sig_a is sig_b:
+            self.trace.log("relay", "driver", problem="the two channels of the relay are one bound signal")
+            return
+        ev = self.Ev(-1)
+        seen: list[Any] = []
+        async with sig_b.stream_events(max_queue_size=10) as stream_b:
+            sig_a.dispatch(ev)
+            first = (ev.source is a_inst, ev.topic)
+            sig_b.dispatch(ev)
+            with anyio.move_on_after(5):
+                got = await stream_b.__anext__()
+                seen.append((got is ev, got.source is b_inst, got.topic))
+        self.trace.log("relay", "driver", first_ok=bool(first == (True, a_name)), seen=seen, expect_topic=b_name)
+
     async def waiter(self, wid: int, spec: dict[str, Any]) -> None:
         from asphalt.core import wait_event
 
@@ -226,7 +271,11 @@ class Run:
                 self.n = n
 
         self.Ev = Ev
-        Src = type("Src", (), {f"s{j}": Signal(Ev) for j in range(prog["n_signals"])})
+        ns: dict[str, Any] = {f"s{j}": Signal(Ev) for j in range(prog["n_signals"])}
+        if prog.get("equal_owners"):
+            ns["__eq__"] = lambda a, b: type(a) is type(b)
+            ns["__hash__"] = lambda a: 7
+        Src = type("Src", (), ns)
         for name in [f"s{j}" for j in range(prog["n_signals"])]:
             getattr(Src, name).__set_name__(Src, name)
         self.Src = Src
@@ -248,6 +297,8 @@ class Run:
                                     await self.subscriber(k, t)
 
                             consumers.start_soon(run_sub)
+                        elif t["kind"] == "bad_subscriber":
+                            dispatchers.start_soon(self.bad_subscriber, k, t)
                         else:
                             consumers.start_soon(self.waiter, k, t)
                     # subscribers of style "cancel" are cancelled mid-history
@@ -267,6 +318,7 @@ class Run:
                     await anyio.wait_all_tasks_blocked()
                     if len(self.trace) == before:
                         break
+                await self.relay_phase()
                 self.trace.log("final-cancel", "driver")
                 consumers.cancel_scope.cancel()
             for cm, _stream in self.abandoned:
@@ -434,6 +486,20 @@ def check(run: Run) -> tuple[list[dict[str, Any]], dict[str, int]]:
                 bad("events-wait-wrong", "wait_event returned before the event was dispatched")
         elif ret is not None:
             bad("events-wait-wrong", f"wait_event caller {wid} returned event {ret['eid']} although no matching event was dispatched after its call began", waiter=spec)
+    for e in tr.events:
+        if e["kind"] == "bad-subscribe":
+            inc("failed_subscription_attempts")
+            if e["outcome"] != "UnboundSignal":
+                bad("events-unbound-subscribe", f"subscribing to a list that contains an unbound signal: {e['outcome']} (expected UnboundSignal)")
+        elif e["kind"] == "relay":
+            inc("relayed_events")
+            if e.get("problem"):
+                bad("events-relay", e["problem"])
+            elif not e["first_ok"] or e["seen"] != [(True, True, e["expect_topic"])]:
+                bad("events-stamp", f"an event dispatched a second time on another channel was received there as {e['seen']} "
+                                    f"(expected the same object stamped with that channel's instance and topic {e['expect_topic']!r})")
+    if prog.get("equal_owners") and prog["n_instances"] >= 2:
+        inc("histories_with_equal_owners")
     if active_subs >= 2:
         inc("histories_with_2plus_subscribers")
     if any(t["kind"] == "subscriber" and t["style"]["kind"] == "abandon" for t in prog["tasks"]):
